@@ -28,6 +28,8 @@ def configs(tier):
 
 def budget(cfg, tier):
     base = 4000 if tier == 'quick' else 40000
+    if cfg.name in ('i8x3', 'u16x5', 'i64x2', 'u8x17'):
+        return base * 4
     if cfg.n >= 1024:
         return 40 if tier == 'quick' else 200
     if cfg.n >= 128:
@@ -77,6 +79,16 @@ def requests(cfg, rng, n, tier, part, nparts, st):
         for v in ((1 << k) - 1, 1 << k):
             if v <= cfg.mask:
                 yield 'fmt', (cfg.val(v), rng.randrange(ns), rng.choice((0, 1, 40, 255)))
+    if cfg.name in ('i8x3', 'u16x5', 'i64x2', 'u8x17'):
+        # every format spec x every width 0..=255 on a zero, a negative (or large) and a mid-size value; thorough: all, quick: 1/8 of the widths
+        vals = (0, cfg.wrap(-12345), cfg.wrap(0x1002003))
+        ws = list(range(256)) if tier == 'thorough' else list(range(rng.randrange(8), 256, 8))
+        allc = [(v, i, w) for v in vals for i in range(ns) for w in ws]
+        lo_, hi_ = (len(allc) * part // nparts, len(allc) * (part + 1) // nparts)
+        for c in allc[lo_:hi_]:
+            yield 'fmt', c
+        if tier == 'thorough':
+            st['exhaustive'].append('%s: all %d format specs x all widths 0..=255 x 3 values' % (cfg.name, ns))
     for k in range(n):
         r = rng.random()
         if r < 0.4:
